@@ -63,6 +63,30 @@ func (r *schedReader) Read(p []byte) (int, error) {
 }
 
 // failWriter accepts budget bytes, then fails (accepting the part that still fits)
+// chunkFailWriter makes short writes (at most chunk bytes per call, nil error) and fails once
+// its budget is used up, accepting the part that still fits.
+type chunkFailWriter struct {
+	buf    bytes.Buffer
+	budget int
+	chunk  int
+}
+
+func (w *chunkFailWriter) Write(p []byte) (int, error) {
+	m := len(p)
+	if m > w.chunk {
+		m = w.chunk
+	}
+	if w.budget < m {
+		k := w.budget
+		w.buf.Write(p[:k])
+		w.budget = 0
+		return k, errInjected
+	}
+	w.buf.Write(p[:m])
+	w.budget -= m
+	return m, nil
+}
+
 type failWriter struct {
 	buf    bytes.Buffer
 	budget int
@@ -312,6 +336,26 @@ func TestC13(t *testing.T) {
 					return joinKV("err="+b01(err != nil), "accepted="+hexBytes(fw.buf.Bytes()), "written="+hx(uint64(ew.Written())))
 				})
 				out.emit("write-"+kind, "c13w", []string{kind, ty.Sexp(), v.Sexp(), hx(uint64(p))}, obs)
+				{
+					// the same with a writer that also makes short writes
+					chunk := 1 + p%3
+					obsC := guard(func() string {
+						fw := &chunkFailWriter{budget: p, chunk: chunk}
+						ew := codec.NewEncodingWriter(fw)
+						var err error
+						if kind == "view" {
+							vw, e2 := buildView(ty, v)
+							if e2 != nil {
+								return "enc=ERR"
+							}
+							err = vw.Serialize(ew)
+						} else {
+							err = flatOf(ty, v).Serialize(ew)
+						}
+						return joinKV("err="+b01(err != nil), "accepted="+hexBytes(fw.buf.Bytes()), "written="+hx(uint64(ew.Written())))
+					})
+					out.emit("writeC-"+kind, "c13wc", []string{kind, ty.Sexp(), v.Sexp(), hx(uint64(p)), hx(uint64(chunk))}, obsC)
+				}
 				if p > 0 {
 					// the same with a writer that reports its failure eagerly
 					obsE := guard(func() string {
